@@ -104,3 +104,15 @@ claim(
     "a cross-validation grid flip to the neighbouring refinement point (<2% in h) is counted inconclusive.",
     "Hypothesis PBT with direct-summation reference and metamorphic relations",
 )
+claim(
+    "C19",
+    "Generated-input search over six sample families, sizes 300..20000, locations up to 1e6 standard deviations from zero, scales 1e-6..1e6, "
+    "fractions 0.05..0.95 and both estimators; every oracle is computed from the estimator's own density by independent means (composite "
+    "12-point Gauss-Legendre on panels no wider than h/2, closed-form Gaussian-mixture moments for the KDE, dense-grid maximisation): "
+    "normalisation, cdf = integral of pdf, interval mass and equal end densities, mode maximality, moments (only when the tails outside the "
+    "estimator's own range are shown to be negligible), and direct comparison of fits to z and a*z+b. The same absolute tolerances (in "
+    "standard-deviation units) apply at every location and scale, which is the covariance claim.",
+    "Tolerances fixed from delivered accuracy at scale 1 / location 0 with 10-20x margin (mass 5e-4, end-density ratio 5e-3, normalisation 2e-3, "
+    "mode density 1e-3, mean 2e-3 sd, variance 4e-3, shape 5e-3 / 2e-2); one open known finding (KDE mode search confined to the 20% sample HDI).",
+    "Hypothesis PBT with self-consistency oracles (independent quadrature) and metamorphic shift/scale relations",
+)
